@@ -7,7 +7,8 @@
 //! field-table oracle `crate::frames` (anchored on the Glaze-produced interop
 //! fixtures at the start of every run). Server-side emission is decided on raw
 //! loopback sockets (`Server`, `AsyncServer`) and on an in-memory duplex
-//! (`SharedWebSocketServer`) in `c01_server.rs`.
+//! (`SharedWebSocketServer`) in `c01_server.rs`; client-side emission (every request API of
+//! `Client`, `AsyncClient`, `WebSocketClient`, in several orders per connection) in `c01_clients.rs`.
 //!
 //! Oracle clauses
 //!  O1 bytes == Hdr::encode (offsets 0,8,10,11,12,16,24,32,40,42,44; LE) ++ query ++ body,
@@ -448,7 +449,7 @@ pub fn run(tier: Tier) -> ! {
 
     // 7. block C: client-side emission
     order_base += srv.bad.len() as u64;
-    let cl = clients_emit::run_all(tier);
+    let cl = clients_emit::run_all(tier, &repo_dir());
     if let Some(m) = &cl.machinery {
         ctx.machinery(format!("client emission block: {m}"));
     }
@@ -516,7 +517,7 @@ pub fn run(tier: Tier) -> ! {
     let cap_json = |a: &[u64; 5]| -> Value { json!(local::CAP_NAMES.iter().zip(a.iter()).map(|(n, c)| (n.to_string(), json!(c))).collect::<serde_json::Map<_, _>>()) };
     let states = st.states + srv.states + cl.calls;
     let transitions = st.transitions + srv.transitions + cl.frames_compared;
-    let planned_states = n_fixtures as u64 + 5 * (n_l + n_h + n_g) + raws.len() as u64 + typed.len() as u64 + srv.planned + cl.calls;
+    let planned_states = n_fixtures as u64 + 5 * (n_l + n_h + n_g) + raws.len() as u64 + typed.len() as u64 + srv.planned + cl.planned;
     if states != planned_states && !ctx.has_violation() {
         ctx.machinery(format!("executed {states} configurations, planned {planned_states}"));
     }
@@ -527,7 +528,7 @@ pub fn run(tier: Tier) -> ! {
         "samples": samples.take(),
         "exhaustive": states == planned_states,
         "planned_states": planned_states,
-        "rule": "every logical message of the stated product spaces is built and sent through every emission route and every parser of the crate; each result is compared with the field-table oracle (frames.rs), which is first anchored on the interop fixtures; server routes: the oracle encoding of the predicted response is compared with the bytes read from the socket/duplex",
+        "rule": "every logical message of the stated product spaces is built and sent through every emission route and every parser of the crate; each result is compared with the field-table oracle (frames.rs), which is first anchored on the interop fixtures; server routes: the oracle encoding of the predicted response is compared with the bytes read from the socket/duplex; client routes: the whole catalogue of logical requests is issued through every request-emitting public API of the three clients, in several orders on one long-lived connection per client, and every frame the peer receives is compared with the oracle encoding of the predicted fields and across the clients",
         "bound": {
             "fixtures_reproduced_by_oracle": n_fixtures,
             "block_L": {"headers_single_field_sweeps_around_2_bases": sweeps.len(), "query_lengths": lens, "body_lengths": lens, "capacity_relations": local::CAP_NAMES, "sinks_bytes_per_call_0_is_unlimited": sinks_l.iter().map(|&x| if x == UNL { 0 } else { x }).collect::<Vec<_>>(), "messages": n_l},
@@ -536,7 +537,7 @@ pub fn run(tier: Tier) -> ! {
             "block_R_bare_headers_u64_length_classes": raws.len(),
             "block_T_builder_bodies": {"configs": typed.len(), "elements": local::ELEMS.iter().map(|e| e.name()).collect::<Vec<_>>()},
             "block_S_servers": srv.bound,
-            "block_C_clients": {"clients": clients_emit::CLIENTS, "logical_requests": cl.calls, "what": "every request-emitting API x paths {short, escaped, long} x query format codes {0,1,0x7788,0xffff} x body format codes {0,1,2,3,0x5555,0xffff} x bodies {none, empty, 1 B, 5000 B, 70 000 B} (with_formats routes), four JSON values for the JSON/BEVE/registry helpers; one long-lived connection per client"},
+            "block_C_clients": cl.bound,
         },
         "alphabet": {"u8": U8C, "u16": U16C, "u32": U32C, "u64_id": U64C, "spec_encode_only": SPECC},
         "nonvacuity": {
@@ -561,7 +562,7 @@ pub fn run(tier: Tier) -> ! {
             "panics": st.panics,
             "violating_comparisons": total.total_bad,
             "server": srv.nonvacuity,
-            "client_emission": {"frames_compared": cl.frames_compared, "requests_per_api": cl.per_route},
+            "client_emission": cl.nonvacuity,
         },
     });
     ctx.finish(
@@ -572,6 +573,7 @@ pub fn run(tier: Tier) -> ! {
             "BEVE payload bytes of typed/complex/aligned bodies are taken from the builder (their content is C08's subject); C01 decides their framing",
             "payload contents are one fixed aperiodic non-zero pattern per length; lengths beyond 64 KiB only at three representatives",
             "server routes run over real loopback TCP (kernel behaviour as observed) and an in-memory duplex for the WebSocket server",
+            "client routes: the blocking Client runs over real loopback TCP, the two tokio clients over in-memory streams on a paused clock; numeric-slice bodies are predicted by a BEVE typed-array encoder written for this check (cross-checked against the beve crate at start), the body-format code of a body-less read is the helper's choice and only required to equal what Client::call_message emits; messages handed to forward_message carry length fields consistent with their payloads",
         ],
     )
 }
